@@ -5,7 +5,7 @@ import re, subprocess, sys, os
 V = os.path.dirname(os.path.dirname(os.path.abspath(__file__)))
 OWNER = {"C11": "bcl", "C19": "bcl", "C09": "bcl", "C06": "dec", "C03": "dec", "C08": "enc", "C01": "enc", "C02": "cmpa", "C13": "cmpa",
          "C07": "cmpb", "C14": "cmpb", "C17": "ent", "C12": "scha", "C04": "scha", "C18": "schb", "C15": "schb", "C16": "tool", "C05": "tool",
-         "C10": "conc", "C20": "main"}
+         "C10": "conc", "C20": "conc"}
 def show(branch):
     if branch == "main":
         return open(os.path.join(V, "KNOWN_FINDINGS.txt"), encoding="utf-8").read()
